@@ -2,7 +2,8 @@
 From Coq Require Import ZArith List Bool String Lia ZifyBool Arith.
 From DD Require Import Common Mir GenErr Addr.
 Import ListNotations.
-Open Scope Z_scope.
+Local Open Scope Z_scope.
+Local Open Scope list_scope.
 
 (* ================================================================================================ *)
 (** * 0. Utilities *)
@@ -532,7 +533,9 @@ Proof.
   intros Hf Ha Hk. unfold visit. rewrite Hf, Ha. unfold within. cbn [fst snd].
   set (c := rep_count (object_repeat o)) in *. set (s := rep_stride (object_repeat o)) in *.
   replace (Z.max (c - 1) 0) with (c - 1) by lia.
-  assert (Hl : (0 <= k * s <= (c - 1) * s) \/ ((c - 1) * s <= k * s <= 0)) by nia.
+  clearbody c s.
+  assert (Hl : (0 <= k * s <= (c - 1) * s) \/ ((c - 1) * s <= k * s <= 0)).
+  { destruct (Z_le_gt_dec 0 s); [left|right]; nia. }
   lia.
 Qed.
 
@@ -667,10 +670,10 @@ Proof.
 Qed.
 
 Lemma zsum_app a b : zsum (a ++ b) = zsum a + zsum b.
-Proof. induction a as [|x t IH]; cbn; [reflexivity|]. rewrite IH. lia. Qed.
+Proof. unfold zsum. induction a as [|x t IH]; cbn [app fold_right]; [reflexivity|]. rewrite IH. lia. Qed.
 
 Lemma addr_sem_app p s : addr_sem (p ++ [s]) = addr_sem p + step_sem s.
-Proof. unfold addr_sem. rewrite map_app, zsum_app. cbn. lia. Qed.
+Proof. unfold addr_sem. rewrite map_app, zsum_app. unfold zsum. cbn [map fold_right]. lia. Qed.
 
 (* a filter at least as permissive as the walk of the instance's kind *)
 Definition filter_covers (filter : object -> bool) (k : akind) : Prop :=
@@ -732,7 +735,7 @@ Proof.
         apply clean_opt_tag in Hc1; [|discriminate]. apply clean_opt_tag in Hc2; [|discriminate].
         destruct addr as [a0|]; [|discriminate].
         eapply Hleaf; [exact Hia| | reflexivity | ].
-        * rewrite Hi'. apply Hcov. reflexivity.
+        * apply Hcov. rewrite Hi'. reflexivity.
         * cbn [lf_rep object_repeat]. destruct rep as [rp|]; [split; reflexivity|].
           cbn in Hc2. destruct (rg_repeat r); [discriminate|]. split; reflexivity.
       + injection Ho as <-. pose proof Hia as Hia'. apply leaf_instances_in in Hia'. destruct Hia' as (k & _ & Hi').
@@ -746,7 +749,7 @@ Proof.
         apply clean_opt_tag in Hc1; [|discriminate]. apply clean_opt_tag in Hc2; [|discriminate].
         destruct addr as [a0|]; [|discriminate].
         eapply Hleaf; [exact Hia| | reflexivity | ].
-        * rewrite Hi'. apply Hcov. reflexivity.
+        * apply Hcov. rewrite Hi'. reflexivity.
         * cbn [lf_rep object_repeat]. destruct rep as [rp|]; [split; reflexivity|].
           cbn in Hc2. destruct (cm_repeat c0); [discriminate|]. split; reflexivity. }
   (* the list *)
